@@ -159,3 +159,37 @@ var propMulti = ev.Register(&ev.Prop[MCase]{
 func TestC11SharedStateMachine(t *testing.T) { propMulti.Check(t, 800, 30000) }
 
 var _ = net.IP{}
+
+// Every typed application the embedded dictionaries declare, advertised alone and all together:
+// the CER must be accepted and the success CEA must advertise (at least) that application.
+func TestC11EveryDictionaryApplication(t *testing.T) {
+	md, err := refModel()
+	if err != nil {
+		t.Fatal(err)
+	}
+	var all []Item
+	keys := md.Keys()
+	for _, id := range keys.Apps {
+		if id == 0 {
+			continue
+		}
+		seen := map[string]bool{}
+		for _, a := range md.App(id) {
+			if (a.Type == "auth" || a.Type == "acct") && !seen[a.Type] {
+				seen[a.Type] = true
+				all = append(all, Item{K: a.Type, ID: id})
+			}
+		}
+	}
+	if len(all) < 5 {
+		t.Fatalf("harness: only %d typed applications found in the embedded dictionaries", len(all))
+	}
+	propCER.Enumerate(t, true, func(yield func(Case) bool) {
+		for _, it := range all {
+			if !yield(Case{Host: true, Realm: true, Items: []Item{it}, Endpoint: "10.1.2.3:3868", HbH: 1, E2E: 2}) {
+				return
+			}
+		}
+		yield(Case{Host: true, Realm: true, Items: all, Endpoint: "10.1.2.3:3868", HbH: 3, E2E: 4})
+	})
+}
